@@ -143,19 +143,28 @@ func TestC10PivTime(t *testing.T) {
 	if os.Getenv("VERIF_C10_PIVDEV") != "time" {
 		t.Skip("VERIF_C10_PIVDEV != time")
 	}
-	var piv, old []History
+	var piv, old, sec []History
 	rapid.Check(t, func(rt *rapid.T) {
 		h := genA(rt)
-		if hasRestartX(h) {
+		https := false
+		for _, op := range h.Ops {
+			if op.K == "ladd" && op.L != nil && kindOf(*op.L) == "https" {
+				https = true
+			}
+		}
+		switch {
+		case https:
+			sec = append(sec, h)
+		case hasRestartX(h):
 			piv = append(piv, h)
-		} else {
+		default:
 			old = append(old, h)
 		}
 	})
 	for _, set := range []struct {
 		n string
 		l []History
-	}{{"pivot", piv}, {"other", old}} {
+	}{{"pivot", piv}, {"other", old}, {"with-https-add", sec}} {
 		var ru0, ru1 syscall.Rusage
 		syscall.Getrusage(syscall.RUSAGE_SELF, &ru0)
 		t0 := time.Now()
